@@ -208,7 +208,7 @@ fn message(rng: &mut Rng, len: usize) -> Vec<u8> {
 }
 
 pub fn run(ctx: &Ctx) {
-    ctx.rule("cases = arrival histories of fragments derived from an original message the protocol's way (first fragment numbered n and carrying the start, counting down to 1): all n! arrival orders for n <= 6 (quick) / 7 (thorough) x cut patterns incl. empty fragments; random orders for n <= 64; every single duplicate (header or continuation) at every later position of every order for n <= 4/5; random duplicates, id 0 and out-of-range ids injected; 2..4 sequences with arbitrary 64-bit ids interleaved; expiry; evaluations = fragment arrivals whose return value was compared with the sequential model; distinct = distinct (n, arrival order hash, cut pattern, injected-noise kind)");
+    ctx.rule("cases = arrival histories of fragments derived from an original message the protocol's way (first fragment numbered n and carrying the start, counting down to 1): all n! arrival orders for n <= 6 (quick) / 7 (thorough) x cut patterns incl. empty fragments; random orders for n <= 64; every single duplicate (header or continuation) at every later position of every order for n <= 4/5; random duplicates, id 0 and out-of-range ids injected; 2..4 sequences with arbitrary 64-bit ids interleaved; slowly arriving sequences (gaps below the timeout, total above it, with a sweep before each arrival) must survive; expiry; evaluations = fragment arrivals whose return value was compared with the sequential model; distinct = distinct (n, arrival order hash, cut pattern, injected-noise kind)");
     ctx.assume("a duplicate fragment carries the same bytes as the original (conforming peer); fragments arriving after their sequence completed start a new pending sequence in the model as they do in the assembler");
     let mut rng = Rng::derive(ctx.seed, 9, 1);
     let max_exh = ctx.pick(6usize, 7usize);
@@ -326,6 +326,67 @@ pub fn run(ctx: &Ctx) {
         run_history(ctx, &history, &all, &format!("random round {} noise {}", r, noise));
         if r % 997 == 0 {
             ctx.sample(json!({"sequences": nseq, "arrivals": history.iter().map(|f| format!("{}{:x}#{}", if f.header { "H" } else { "c" }, f.seq, f.id)).collect::<Vec<_>>(), "noise": noise}));
+        }
+    }
+    // (2b) a sequence whose fragments keep arriving is not expired: every arrival (header first, header last,
+    // header in the middle) restarts the clock; judged only when the measured gaps were really below the timeout
+    {
+        use std::time::Instant;
+        let timeout = Duration::from_millis(400);
+        let gap = Duration::from_millis(150);
+        for (shape, order) in [("header-first", vec![0usize, 1, 2, 3]), ("header-last", vec![1, 2, 3, 0]), ("header-in-the-middle", vec![1, 2, 0, 3]), ("header-second", vec![3, 0, 2, 1])] {
+            if ctx.quick() && shape == "header-second" {
+                continue;
+            }
+            let msg = message(&mut rng, 16);
+            let frags = split(0xE0_0000, &msg, &[4, 8, 12]);
+            let mut asm = FragmentAssembler::with_timeout(timeout);
+            let mut model = Model::default();
+            let mut last = Instant::now();
+            let mut longest = Duration::ZERO;
+            let mut verdict: Option<String> = None;
+            let mut result: Option<Vec<u8>> = None;
+            let mut expected: Option<Vec<u8>> = None;
+            let t0 = Instant::now();
+            for (k, i) in order.iter().enumerate() {
+                if k > 0 {
+                    std::thread::sleep(gap);
+                    // sweep right before the next arrival: nothing is due
+                    let since = last.elapsed();
+                    longest = longest.max(since);
+                    let removed = asm.cleanup_expired();
+                    if removed != 0 && since + Duration::from_millis(100) < timeout {
+                        verdict = Some(format!("cleanup_expired removed {} sequence(s) {} ms after its latest fragment (timeout {} ms, {} ms after the first)", removed, since.as_millis(), timeout.as_millis(), t0.elapsed().as_millis()));
+                        break;
+                    }
+                }
+                let f = &frags[*i];
+                let got = if f.header { asm.start_fragment(f.seq, f.id, None, f.data.clone()) } else { asm.add_fragment(f.seq, f.id, f.data.clone()) };
+                last = Instant::now();
+                let want = model.deliver(f);
+                if got.is_some() {
+                    result = got;
+                }
+                if want.is_some() {
+                    expected = want;
+                }
+            }
+            ctx.eval(1);
+            ctx.class(&format!("slow-arrival/{}", shape));
+            if longest + Duration::from_millis(100) >= timeout {
+                ctx.count("slow_arrival_runs_not_judged_machine_too_slow", 1);
+                continue;
+            }
+            if verdict.is_none() && result.is_none() && expected.is_some() {
+                verdict = Some("the sequence never completed although every fragment arrived within the timeout of the previous one".into());
+            }
+            if let Some(v) = verdict {
+                ctx.viol(
+                    "C09:live-sequence-expired",
+                    "a sequence that was still receiving fragments (each within the timeout of the previous one) was dropped as expired",
+                    json!({"shape": shape, "arrival_order_of_fragments": order, "detail": v, "longest_gap_ms": longest.as_millis() as u64, "timeout_ms": timeout.as_millis() as u64}),
+                );
+            }
         }
     }
     // (3) expiry: incomplete sequences disappear after the timeout + cleanup
